@@ -233,18 +233,19 @@ def check_qnspsa(spec):
 
     hp, split, hist, answers = dict(spec["hp"]), spec["split"], spec["hist"], spec["answers"]
     p0 = X.QNODES["qnode"]["args"][0][0]
-    pa = pnp.array(p0[:split], requires_grad=True)
-    pb = pnp.array(p0[split:], requires_grad=False)
-    pb_ref = np.array(p0[split:])
+    ia, ib = X.SPLITS[split]
+    pa = pnp.array([p0[k] for k in ia], requires_grad=True)
+    pb = pnp.array([p0[k] for k in ib], requires_grad=False)
+    pb_ref = np.array([p0[k] for k in ib])
     qnode = X.live_qnode(split=split)
     opt = qp.QNSPSAOptimizer(**hp)
     ch = Chooser(answers)
     gen = ScriptedGenerator(ch)
     opt.rng = gen  # harness-side seam: the optimizer's generator attribute
-    f = lambda x: X.circuit_cost(np.concatenate([x, pb_ref]))
-    F = lambda x, y: X.circuit_overlap(np.concatenate([x, pb_ref]), np.concatenate([y, pb_ref]))
+    f = lambda x: X.circuit_cost(X.merge(split, x, pb_ref))
+    F = lambda x, y: X.circuit_overlap(X.merge(split, x, pb_ref), X.merge(split, y, pb_ref))
     ref = X.RefQNSPSA(hp, f, F)
-    x = np.array(p0[:split], dtype=float)
+    x = np.array([p0[k] for k in ia], dtype=float)
     res = hp.get("resamplings", 1)
     cursor = 0
     accepted_all = True
